@@ -40,7 +40,7 @@ def _accepted(version, text):
 
 
 CHECK = HistoryCheck(
-    "C04", {"state", "callback"}, RULE, dict(max_ops=30), nontrivial,
+    "C04", {"state", "callback"}, RULE, dict(max_ops=30, op_weights=dict(save=3)), nontrivial,
     quick=(16, 160), thorough=(16, 2500),
     assumptions=[
         "reference model vf/ref/model.py is the oracle; frames whose validity the statement does not pin are excluded by construction",
